@@ -520,17 +520,13 @@ struct Case {
     must_reject: Option<String>,
 }
 
-fn valid_cases(rule_names: &[String], thorough: bool) -> Vec<Case> {
+fn valid_cases(rule_names: &[String], _thorough: bool) -> Vec<Case> {
     let mut cases = Vec::new();
     let filters = filter_forms();
     for name in rule_names {
         cases.push(Case { j: config_with_rules(vec![s(name)]), origin: format!("rule-string:{}", name), must_reject: None });
         for (vi, props) in rule_variants(name).iter().enumerate() {
             for (fi, f) in filters.iter().enumerate() {
-                // quick tier: all filter forms on the first two variants, a diagonal on the others
-                if !thorough && vi >= 2 && (fi + vi) % 5 != 0 {
-                    continue;
-                }
                 cases.push(Case {
                     j: config_with_rules(vec![rule_object(name, props, f, fi % 2 == 1)]),
                     origin: format!("rule-object:{}:variant{}:filter{}", name, vi, fi),
@@ -1229,7 +1225,7 @@ pub fn run(report: &mut Report, replay: Option<&str>) {
     report.count("enumerated_valid_cases", valid.len() as u64);
     let mut rng = Rng::new(report.seed);
     let mut random_cases = Vec::new();
-    for _ in 0..(if thorough { 40000 } else { 2500 }) {
+    for _ in 0..(if thorough { 150000 } else { 15000 }) {
         random_cases.push(random_valid_case(&mut rng, &real_names));
     }
     // ---- corruptions of a set of bases: one per rule family + generator/bundle/top-level shapes
